@@ -18,6 +18,17 @@ def mkfile(L, d, f):
     L.Hendaccess(aid)
     s = ("%s:e2" % f).encode()
     L.Hputelement(fid, 500, 2, s, len(s))
+    # e3 is an external element (its bytes live in a file of its own), e4 a run-length compressed one
+    s = ("%s:e3" % f).encode()
+    aid = L.HXcreate(fid, 500, 3, os.path.join(d, f + "_e3.dat").encode(), 0, 0)
+    L.Hwrite(aid, len(s), s)
+    L.Hendaccess(aid)
+    s = ("%s:e4" % f).encode()
+    ci = (ctypes.c_int32 * 8)()
+    mi = (ctypes.c_int32 * 8)()
+    aid = L.HCcreate(fid, 500, 4, 0, mi, 1, ci)          # COMP_MODEL_STDIO, COMP_CODE_RLE
+    L.Hwrite(aid, len(s), s)
+    L.Hendaccess(aid)
     L.Vinitialize(fid)
     for k in (1, 2):
         vg = L.Vattach(fid, -1, b"w")
@@ -212,7 +223,7 @@ def acquire_of(c, k, pnum, f, o):
             c.v.setdefault("wfid", {})[n] = (o == "w" and f not in c.v.get("seen_r", set()))
         return n
     if k == "aid":
-        return L.Hstartread(pnum, 500, 1 if o == "e1" else 2)
+        return L.Hstartread(pnum, 500, {"e1": 1, "e2": 2, "e3": 3, "e4": 4}.get(o, 2))
     if k == "vg":
         ref = L.Vfind(pnum, ("%s:%s" % (f, o)).encode())
         return L.Vattach(pnum, ref if ref > 0 else 9999, b"w" if c.v.get("wfid", {}).get(pnum) else b"r")
